@@ -94,11 +94,14 @@ SEEDS = {
            "odd-numerator /16 signatures and most /32 ones (3/16: 16 ticks sliced instead of 18): Bar pads each bar back, the cursor drifts, one bar too many, later keys at the wrong bar"),
  "C01-c": ("C01", "Sequence.set_channel: `self.invalidate_abs()` dropped (the tokeniser labels track i with channel i through this wrapper and then merges the absolute views)",
            "num_tracks >= 2 and input sequences whose absolute view is live when tokenise runs (built with add_absolute_message, or returned by detokenise): every note ends up in track 0"),
+ "C04-c": ("C04", "RelativeSequence.to_absolute_sequence: the cap flag replaced by `if len(messages) > 0 and messages[-1].time < current_point_in_time`",
+           "a sequence whose relative view consists of waits only (padded empty sequence, rest piece of a split): the absolute view is empty, the duration is lost / the sequence unreadable"),
  "C17-a": ("C17", "equals: the tick comparison moved into the NOTE_ON branch; time and key signatures are compared by value only",
            "two sequences identical except for the tick of one signature, with no compared event of the channel between the old and the new tick"),
 }
 
 INITIALLY_MISSED = {
+ "C04-c": "missed by the first version of CONV: its cap rules were written against the bookkeeping flag and were skipped when no flag exists; the guard of the cap is now evaluated in the situations `waits only` and `ends in a wait after the last event`, where it must not be false",
  "C01-c": "caught from the start by C04 (TS3) and C18 (VIEW) -- the same edit as seed C18-b; C01's own check missed it. A table of the Sequence-level operations each property's anchor code goes through (props/common.py) now adds VIEW obligations to C01, C03, C09, C10, C12, C13, C16, C17",
  "C20-b": "the first version aborted with ANALYSIS-ERROR (exit 2): the exhaustive evaluator did not know local aliases of the circle list, len(), augmented assignments; it was extended and now reports VS-LAND with the six failing residue pairs",
  "C15-b": "caught from the start by C07 (SIG); C15's own check missed it because it only shared the STACK rules of the normaliser; C15 now includes the SIG rules, and SIG names the derived-quantity comparison explicitly",
